@@ -72,8 +72,17 @@ void run_case(ByteSource& s, CaseInfo& ci) {
         ci.ratio("roundtrip-vmv", (double)(err / (tol + TINY)));
       }
       // second entry point: GetGSLMatrix(gsl_matrix_complex*) into a caller-provided matrix
-      GslMat pre(d, d);
+      GslMat pre_own(d, d), pre_big(d + 2, d + 3);
+      gsl_matrix_complex_view pre_sub = gsl_matrix_complex_submatrix(pre_big.m, 1, 2, d, d);
+      bool out_view = s.flag();
+      gsl_matrix_complex* pre = out_view ? &pre_sub.matrix : pre_own.m;
+      for (size_t i = 0; i < pre_big.m->size1; i++) for (size_t j = 0; j < pre_big.m->size2; j++) gsl_matrix_complex_set(pre_big.m, i, j, gsl_complex_rect(9.25, 1.5));
       v.GetGSLMatrix(pre);
+      if (out_view) for (size_t i = 0; i < pre_big.m->size1; i++) for (size_t j = 0; j < pre_big.m->size2; j++) {
+        if (i >= 1 && i < (size_t)d + 1 && j >= 2 && j < (size_t)d + 2) continue;
+        gsl_complex z = gsl_matrix_complex_get(pre_big.m, i, j);
+        CHECK(GSL_REAL(z) == 9.25 && GSL_IMAG(z) == 1.5, "C01|GetGSLMatrix|wrote-outside-the-target-view", "element (%zu,%zu) of the enclosing matrix changed", i, j);
+      }
       for (int i = 0; i < d; i++) for (int j = 0; j < d; j++) {
         gsl_complex a = gsl_matrix_complex_get(pre, i, j), b = gsl_matrix_complex_get(g.get(), i, j);
         CHECK(bit_equal(GSL_REAL(a), GSL_REAL(b)) && bit_equal(GSL_IMAG(a), GSL_IMAG(b)), "C01|GetGSLMatrix|overloads-differ", "d=%d (%d,%d)", d, i, j);
@@ -86,7 +95,12 @@ void run_case(ByteSource& s, CaseInfo& ci) {
       ci.label("matrix-first"); ci.nontrivial = imag_off;
       ci.sample = fmt("matrix->vector->matrix d=%d M=%s", d, mat_str(M).c_str());
       GslMat g(M);
-      SU_vector v(g.m);
+      // the matrix may also be a view into a larger one (row stride > d)
+      GslMat big(d + 1 + (int)s.choose(3), d + 2);
+      gsl_matrix_complex_view sub = gsl_matrix_complex_submatrix(big.m, s.choose((unsigned)(big.m->size1 - d + 1)), s.choose(3), d, d);
+      bool view = s.flag();
+      if (view) { for (size_t i = 0; i < big.m->size1; i++) for (size_t j = 0; j < big.m->size2; j++) gsl_matrix_complex_set(big.m, i, j, gsl_complex_rect(5.5, -7.5)); gsl_matrix_complex_memcpy(&sub.matrix, g.m); ci.label("matrix-as-view"); }
+      SU_vector v(view ? &sub.matrix : g.m);
       CHECK((int)v.Dim() == d && (int)v.Size() == d * d, "C01|from-matrix|dim", "dim %u", v.Dim());
       std::vector<ld> want = fromM(M);
       ld dsc = 0; for (int i = 0; i < d; i++) dsc += fabsl(M.a[i][i].real());
@@ -158,19 +172,24 @@ void run_case(ByteSource& s, CaseInfo& ci) {
     case 4: {  // compound assignment
       std::vector<double> a = gen_components(s, d, &pat, 500), b = gen_components(s, d, nullptr, 500);
       double x = s.num(400);
-      unsigned op = s.choose(4);
+      unsigned op = s.choose(6);
+      // these checks are bit-exact (no tolerance), so the scalar may also be subnormal or next to the overflow threshold
+      unsigned xs = s.choose(8);
+      if (xs == 1) x = std::ldexp(1.0 + s.unif01(), -s.range(1023, 1074)) * (s.flag() ? -1 : 1);
+      else if (xs == 2) x = std::ldexp(1.0 + s.unif01(), s.range(1000, 1023));
+      if (xs == 1 || xs == 2) { double sc = std::ldexp(1.0, xs == 1 ? -s.range(1000, 1040) : s.range(0, 20)); for (auto& v : a) v *= sc; ci.label(xs == 1 ? "scalar-subnormal" : "scalar-huge"); }
       if (op == 3 && x == 0) x = 3.0;  // /= 0 is excluded (documented precondition: scalar division)
-      static const char* names[] = {"+=", "-=", "*=", "/="};
+      static const char* names[] = {"+=", "-=", "*=", "/=", "+=self", "-=self"};
       ci.label(std::string("compound") + names[op]); ci.nontrivial = two_kinds(a, d);
       ci.sample = fmt("a %s ... d=%d a=%s b=%s x=%.17g", names[op], d, vec_str(a).c_str(), vec_str(b).c_str(), x);
       SU_vector A = make_vec(a, d), B = make_vec(b, d);
       const double* addr = &A[0];
       std::vector<double> want(d * d);
-      for (int i = 0; i < d * d; i++) switch (op) { case 0: want[i] = a[i] + b[i]; break; case 1: want[i] = a[i] - b[i]; break; case 2: want[i] = a[i] * x; break; default: want[i] = a[i] / x; }
-      switch (op) { case 0: A += B; break; case 1: A -= B; break; case 2: A *= x; break; default: A /= x; }
+      for (int i = 0; i < d * d; i++) switch (op) { case 0: want[i] = a[i] + b[i]; break; case 1: want[i] = a[i] - b[i]; break; case 2: want[i] = a[i] * x; break; case 3: want[i] = a[i] / x; break; case 4: want[i] = a[i] + a[i]; break; default: want[i] = a[i] - a[i]; }
+      switch (op) { case 0: A += B; break; case 1: A -= B; break; case 2: A *= x; break; case 3: A /= x; break; case 4: A += A; break; default: A -= A; }
       CHECK(&A[0] == addr && (int)A.Dim() == d, std::string("C01|compound|storage-changed|") + names[op], "d=%d", d);
       for (int i = 0; i < d * d; i++)
-        CHECK(bit_equal(A[i], want[i]), std::string("C01|compound|not-componentwise|") + names[op], "d=%d slot %d lib=%.17g ieee=%.17g", d, i, A[i], want[i]);
+        CHECK(bit_equal(A[i], want[i]) || (std::isnan(A[i]) && std::isnan(want[i])), std::string("C01|compound|not-componentwise|") + names[op], "d=%d slot %d lib=%.17g ieee=%.17g", d, i, A[i], want[i]);
       CHECK(comps(B) == b, std::string("C01|compound|operand-modified|") + names[op], "d=%d", d);
       break;
     }
